@@ -1,13 +1,85 @@
 import Thanos.Common.Parse
+import Thanos.Model.Planner
 /-
   Line-protocol driver of the `compact` family (C29 C30 C34).
   One request per line, one answer per line; every line is self-contained.
+
+  C30 (planner):
+    meta   = id:min:max:failed:tomb:series:isize:res          (failed is 0/1)
+    metas  = meta;meta;…   (sorted by min by the caller; `-` = none)
+    plan.one  <ranges ,> <excl ids ,> <metas>            -> ids `,`-joined | - | panic
+    plan.iter <ranges ,> <excl ids ,> <metas> <newId>    -> fix|panic|fuel <plans: ids `,`-joined, plans `|`-joined> <final: id:min:max `;`-joined>
+    plan.size <ranges ,> <excl ids ,> <metas> <limit> <totalMax>   -> ok <plan ids> <marked ids, sorted, unique> | panic <marked>
+    plan.vert <ranges ,> <excl ids ,> <metas> <limit> <totalMax>   -> same as plan.size
+        (limit = int64(float64(totalMax)*0.85) is computed by the Go side — float semantics are an input)
 -/
 open Thanos Thanos.Parse
 
 namespace Thanos.Driver.Compact
+open Thanos.Planner
+
+def parseMeta (s : String) : Option Meta :=
+  match splitChar ':' s with
+  | [i, mn, mx, f, t, sr, isz, rs] => do
+    let i ← parseNat? i
+    let mn ← parseInt? mn
+    let mx ← parseInt? mx
+    let f ← parseNat? f
+    let t ← parseNat? t
+    let sr ← parseNat? sr
+    let isz ← parseInt? isz
+    let rs ← parseNat? rs
+    pure { id := i, min := mn, max := mx, failed := f != 0, tomb := t, series := sr, isize := isz, res := rs }
+  | _ => none
+
+def parseMetas (s : String) : Option (List Meta) := (listOf ';' s).mapM parseMeta
+
+def exclOf (ids : List Nat) : Excl := fun i => ids.contains i
+
+def showIds (p : List Meta) : String := showNats "," (p.map (·.id))
+
+def showPlans (ps : List (List Meta)) : String := joinWith "|" (ps.map showIds)
+
+def showFinal (ms : List Meta) : String :=
+  joinWith ";" (ms.map fun m => s!"{m.id}:{m.min}:{m.max}")
+
+def insertNat (x : Nat) : List Nat → List Nat
+  | [] => [x]
+  | y :: ys => if x < y then x :: y :: ys else if x = y then y :: ys else y :: insertNat x ys
+
+def sortUniq (xs : List Nat) : List Nat := xs.foldl (fun acc x => insertNat x acc) []
+
+def showSize : SizeOutcome → String
+  | .ok p mk => s!"ok {showIds p} {showNats "," (sortUniq mk)}"
+  | .panic mk => s!"panic {showNats "," (sortUniq mk)}"
+  | .outOfFuel => "fuel"
 
 def handle : List String → String
+  | ["plan.one", rs, ex, ms] =>
+    match parseInts? ',' rs, parseNats? ',' ex, parseMetas ms with
+    | some rs, some ex, some ms =>
+      match plan rs (exclOf ex) ms with
+      | some p => showIds p
+      | none => "panic"
+    | _, _, _ => "bad-op"
+  | ["plan.iter", rs, ex, ms, nid] =>
+    match parseInts? ',' rs, parseNats? ',' ex, parseMetas ms, parseNat? nid with
+    | some rs, some ex, some ms, some nid =>
+      match iterate rs (exclOf ex) (2 * ms.length + 2) nid ms with
+      | .fixpoint ps f => s!"fix {showPlans ps} {showFinal f}"
+      | .panic ps => s!"panic {showPlans ps} -"
+      | .outOfFuel ps f => s!"fuel {showPlans ps} {showFinal f}"
+    | _, _, _, _ => "bad-op"
+  | ["plan.size", rs, ex, ms, lim, _totalMax] =>
+    match parseInts? ',' rs, parseNats? ',' ex, parseMetas ms, parseInt? lim with
+    | some rs, some ex, some ms, some lim =>
+      showSize (sizePlan rs lim (ms.length + 1) (exclOf ex) [] ms)
+    | _, _, _, _ => "bad-op"
+  | ["plan.vert", rs, ex, ms, lim, _totalMax] =>
+    match parseInts? ',' rs, parseNats? ',' ex, parseMetas ms, parseInt? lim with
+    | some rs, some ex, some ms, some lim =>
+      showSize (vertPlan rs lim (exclOf ex) (ms.length + 1) [] [] ms)
+    | _, _, _, _ => "bad-op"
   | _ => "bad-op"
 
 end Thanos.Driver.Compact
